@@ -287,6 +287,9 @@ def run_case(case):
         variants = [("", f"$nofile[*]{text}")]
         if nlay == 1:
             variants.append(("outer comment: ", f"~ a note about this path, v1 ~ $nofile[*]{text}"))
+            variants.append(("outer comment with a dollar sign: ", f"~ prices are in $ (USD) ~ $nofile[*]{text}"))
+            variants.append(("trailing outer comment: ", f"$nofile[*]{text} ~ anything under $4.50 is dropped; see note: 7 ~"))
+            variants.append(("multi-line outer comment: ", f"~ first line\n   second line, with: a field ~\n$nofile[*]{text}"))
         for tag, full in variants:
             p, _ = run.new_path(("collect",), printer=False)
             try:
@@ -302,10 +305,11 @@ def run_case(case):
             rec = {k: o[k] for k in ("lines", "vars", "printouts", "scan_count", "match_count", "is_valid", "errors", "exc")}
             if base_obs is None:
                 base_obs = rec
-                oc = run.run_csvpath(f"~ about: nothing ~ ${path}[*]{text}")
-                recc = {k: oc[k] for k in rec}
-                if recc != rec:
-                    bad("an outer comment without settings changed the run", recc, rec)
+                for pre, post in (("~ about: nothing ~ ", ""), ("~ prices are in $ (USD) ~ ", ""), ("", " ~ under $4.50 ~")):
+                    oc = run.run_csvpath(f"{pre}${path}[*]{text}{post}")
+                    recc = {k: oc[k] for k in rec}
+                    if recc != rec:
+                        bad("an outer comment without settings changed the run", recc, rec)
             elif rec != base_obs:
                 bad("a layout change altered the run results", rec, base_obs)
         states.append(run.h64((exp, sig)))
